@@ -1249,6 +1249,28 @@ def _split_parallel_assign(mods: dict[str, Module], log: list[str]) -> None:
             log.append(f"{mod.relpath}: {n_split} parallel assignment(s) of a tuple display read as a sequence of assignments")
 
 
+def _strip_bool_in_tests(mods: dict[str, Module], log: list[str]) -> None:
+    """`if bool(e):`, `while bool(e)`, `a if bool(e) else b`, `not bool(e)`, `bool(e) and ..` test the truth value of `e` itself."""
+    def strip(e: ast.expr) -> ast.expr:
+        while isinstance(e, ast.Call) and isinstance(e.func, ast.Name) and e.func.id == "bool" and len(e.args) == 1 and not e.keywords and not isinstance(e.args[0], ast.Starred):
+            e = e.args[0]
+        if isinstance(e, ast.UnaryOp) and isinstance(e.op, ast.Not):
+            e.operand = strip(e.operand)
+        elif isinstance(e, ast.BoolOp):
+            e.values = [strip(v) for v in e.values]
+        return e
+
+    n = 0
+    for mod in mods.values():
+        for node in ast.walk(mod.tree):
+            if isinstance(node, (ast.If, ast.While, ast.IfExp, ast.Assert)):
+                before = ast.dump(node.test)
+                node.test = strip(node.test)
+                n += before != ast.dump(node.test)
+    if n:
+        log.append(f"{n} test(s): bool(e) read as e")
+
+
 def _split_conditional_with(mods: dict[str, Module], log: list[str]) -> None:
     """`with f(x, mode=A if c else B) as v: body` with a pure test `c` is read as `if c: with f(.., A): body else: with f(.., B): body`, and inside a branch
     taken under `c` (resp. `not c`) a nested `if c:` keeps only the branch that can run."""
@@ -1753,6 +1775,7 @@ def canonicalise(mods: dict[str, Module]) -> dict:
     _split_parallel_assign(mods, fwd_log)
     _Forward(mods, inv, fwd_log).run()
     _split_conditional_with(mods, fwd_log)
+    _strip_bool_in_tests(mods, fwd_log)
     fwd_log.extend(cm_log)
     if ren or loc_log or fwd_log or inl.log:
         for mod in mods.values():
